@@ -630,7 +630,7 @@ impl fmt::Debug for ValueRepr {
                 }
                 write!(f, "'")
             }
-            ValueRepr::Object(ref val) => val.render(f),
+            ValueRepr::Object(ref val) => val.render_guarded(f),
         }
     }
 }
